@@ -61,22 +61,35 @@ Definition subset_str (a b : list string) : bool := forallb (fun x => mem_str x 
 
 Definition check_mobs (s : hspec) (g : ns) (mo : mobs) : bool :=
   let m := mo_meth mo in
-  let loc := locals s m in
+  (* Local variable NAMES are not constrained by the property (a generator may call its locals what it
+     likes): resolution is computed with the real function's own co_varnames.  What the property does
+     constrain - a parameter (init alias) shadowing a name the code uses - is still seen, because the
+     parameters are among the real co_varnames: for [__init__] they must be exactly the aliases. *)
+  let loc := mo_locals mo in
   let names := body_names s m in
   (* every global name the real code reads is one the model knows, resolving alike *)
   forallb (fun e => mem_str (fst e) names && resolution_eqb (resolve g loc (fst e)) (snd e)) (mo_globals mo)
   (* every name the model says the body uses is read by the real code: as a global
      resolving alike, or - when a parameter shadows it - as a local *)
   && forallb (fun n => match resolve g loc n with
-                       | RLocal => mem_str n (mo_locals mo)
+                       | RLocal => true
                        | r => mem_res n r (mo_globals mo)
                        end) names
-  && subset_str loc (mo_locals mo) && subset_str (mo_locals mo) loc.
+  && match m with
+     | MInit => match init_script_of s with
+                | Some sc => subset_str ("self" :: aliases sc) loc
+                | None => true
+                end
+     | _ => mem_str "self" loc
+     end.
 
 Definition model_methods (c : hcase) : list (meth * list (string * resolution) * list string) :=
   let s := hc_spec c in
   let g := assemble (module_of c) s in
-  map (fun m => (m, map (fun n => (n, resolve g (locals s m) n)) (body_names s m), locals s m))
+  map (fun m =>
+         let loc := match find (fun mo => meth_eqb (mo_meth mo) m) (hc_methods c) with
+                    | Some mo => mo_locals mo | None => locals s m end in
+         (m, map (fun n => (n, resolve g loc n)) (body_names s m), loc))
       (generated_methods s).
 
 Definition check_hcase (c : hcase) : bool :=
@@ -203,7 +216,7 @@ Qed.
 Lemma check_hcase_sound c :
   check_hcase c = true ->
   forall mo n r, In mo (hc_methods c) -> In (n, r) (mo_globals mo) ->
-    resolve (assemble (module_of c) (hc_spec c)) (locals (hc_spec c) (mo_meth mo)) n = r.
+    resolve (assemble (module_of c) (hc_spec c)) (mo_locals mo) n = r.
 Proof.
   unfold check_hcase. intros H mo n r Hmo Hn.
   repeat (apply andb_true_iff in H as [H ?]).
